@@ -622,6 +622,7 @@ static void mi_option_init(mi_option_desc_t* desc) {
     else {
       char* end = buf;
       long value = strtol(buf, &end, 10);
+      const bool has_digits = (end != buf);  // no conversion at all? (otherwise a bare unit like "K" or "GiB" would be accepted as 0)
       if (mi_option_has_size_in_kib(desc->option)) {
         // this option is interpreted in KiB to prevent overflow of `long` for large allocations
         // (long is 32-bit on 64-bit windows, which allows for 4TiB max.)
@@ -637,7 +638,7 @@ static void mi_option_init(mi_option_desc_t* desc) {
         if (overflow || size > MI_MAX_ALLOC_SIZE) { size = (MI_MAX_ALLOC_SIZE / MI_KiB); }
         value = (size > LONG_MAX ? LONG_MAX : (long)size);
       }
-      if (*end == 0) {
+      if (*end == 0 && has_digits) {
         mi_option_set(desc->option, value);
       }
       else {
